@@ -27,6 +27,13 @@ def all_props():
     return sorted('C' + f[1:-3] for f in os.listdir(os.path.join(HERE, 'tcverif', 'rules')) if f.startswith('c') and f[1:-3].isdigit())
 
 
+def _one_check(args):
+    p, overlay = args
+    from tcverif.__main__ import run_check
+    code, R = run_check(p, False, overlay=overlay, quiet=True, write=False)
+    return p, code, sorted({(o.rule, o.construct) for o in R.obs if o.status == 'VIOLATION'}), getattr(R, 'error', '')
+
+
 def main():
     prop, d = sys.argv[1], sys.argv[2]
     keep = '--keep' in sys.argv
@@ -74,14 +81,14 @@ def main():
             sh('git checkout -- src', cwd=wt)
             rc, out = sh(f'{PY} out/demo.py', cwd=wt, env=env, timeout=300)
             res['demo_passes_on_clean'] = rc == 0
-            from tcverif.__main__ import run_check
             caught = {}
-            for p in all_props():
-                code, R = run_check(p, False, overlay=overlay, quiet=True, write=False)
-                if code == 1:
-                    caught[p] = sorted({(o.rule, o.construct) for o in R.obs if o.status == 'VIOLATION'})
-                elif code == 2:
-                    caught[p] = [('ANALYSIS-ERROR', getattr(R, 'error', ''))]
+            from concurrent.futures import ProcessPoolExecutor
+            with ProcessPoolExecutor(max_workers=16) as ex:
+                for p, code, rules, err in ex.map(_one_check, [(p, overlay) for p in all_props()]):
+                    if code == 1:
+                        caught[p] = rules
+                    elif code == 2:
+                        caught[p] = [('ANALYSIS-ERROR', err)]
             res['caught_by'] = caught
             res['caught_by_target'] = prop in caught and caught[prop] and caught[prop][0][0] != 'ANALYSIS-ERROR'
             res['confirmed'] = bool(res.get('applies') and res.get('tests') and res.get('demo_fails_on_changed') and res.get('demo_passes_on_clean'))
